@@ -1,3 +1,4 @@
+import Clover.Proofs.BulkExact
 import Clover.Probe.Keys
 import Clover.Generated.Facts
 import Clover.Model.Index
@@ -108,5 +109,25 @@ def asciiBytes (s : String) : List UInt8 := s.toList.map (fun c => c.toNat.toUIn
 theorem model_key_literals :
     Keys.sColl = asciiBytes "coll:" ∧ Keys.sC = asciiBytes "c:" ∧ Keys.sD = asciiBytes "d:" ∧
     Keys.sI = asciiBytes "i:" ∧ [Keys.semi] = asciiBytes ";" := by decide
+
+end CV.Props.C13
+
+namespace CV.Props.C13
+open CV
+
+variable (likeFn : CV.LikeFn) (fnFam : CV.FnFam)
+
+/-- **Collections are isolated (specification level)**: an operation changes at most its own target
+    collection (`Op.target`); every other collection's indexes and documents are exactly as before. -/
+theorem step_changes_only_its_collection (s : Spec.State) (hw : WF s) (op : Op) (c' : Bytes) (h : op.target ≠ some c') :
+    Spec.lookup c' (Spec.step likeFn fnFam s op).2 = Spec.lookup c' s := spec_step_frame likeFn fnFam s hw op c' h
+
+/-- **… and on the model**: after any determined operation on another collection, every operation on
+    `c'` answers exactly what it answered before. -/
+theorem operations_on_other_collections_do_not_interfere (op op2 : Op) (hop : OpOK op) (hop2 : OpOK op2)
+    (s : Spec.State) (σ : DBState) (hcl : σ.closed = false) (hw : WF s) (hr : Rep s σ.kv)
+    (hdet : Op.Determined s op) (hdet2 : Op.Determined s op2) (c' : Bytes) (h : op.target ≠ some c') (h2 : op2.scope = some c') :
+    (op2.run likeFn fnFam (op.run likeFn fnFam σ noFault).state noFault).out = (op2.run likeFn fnFam σ noFault).out :=
+  run_isolation likeFn fnFam op op2 hop hop2 s σ hcl hw hr hdet hdet2 c' h h2
 
 end CV.Props.C13
